@@ -204,6 +204,7 @@ def run(rep, tier, seed):
                 # one table in four: the APPLICATION binds one more sequence (new for the keymap) through Config.Bind after the
                 # Shell has already dispatched keys, between two calls; the second call is typed against the larger table
                 late = None
+                rem = None
                 rng2 = random.Random(seed * 977 + ci)       # (its own stream: the tables and inputs above do not depend on it)
                 if not local and ci % 4 == 3:
                     taken = [e["seq"] for e in full]
@@ -235,9 +236,20 @@ def run(rep, tier, seed):
                     # (the first call is ended by the harness; Z Z leaves nothing pending)
                     cs["sessions"].append(sess2)
                     cs["preacts"] = [[], [{"k": "rebind", "s": "%s|plate" % mainkm, "h": bytes(late["seq"]).hex(), "n": 0}]]
+                    # every second time the application also takes one of the old sequences OUT of the keymap (a command moved to
+                    # another key: as many binds as before): its keys must run nothing any more, the new ones their command
+                    removable = [e for e in full if not e["macro"] and e.get("raw", e["seq"]) == e["seq"]]
+                    if ci % 8 == 0 and removable:
+                        rem = rng2.choice(removable)
+                        cs["preacts"][1].insert(0, {"k": "unbind", "s": mainkm, "h": bytes(rem["seq"]).hex()})
+                        for w in ([rem["seq"], rem["seq"] + late["seq"], late["seq"] + rem["seq"]]):
+                            if (vi or mainkm != "emacs") and w[-1] == ESC:
+                                continue
+                            for ch in chunking(bytes(w + [Z, Z]), mode, vi or mainkm != "emacs"):
+                                cs["sessions"][1].append(keys(ch))
                 cases.append(cs)
                 meta[cid] = {"table": full, "steps": steps, "km": km, "mode": mode, "main": mainkm, "skip": skip,
-                             "table2": (full + [late]) if late else None}
+                             "table2": ([e for e in full if e is not rem] + [late]) if (late and rem is not None) else (full + [late]) if late else None}
     log("C03: %d cases (tables x chunking modes)" % len(cases))
     bycase = run_harness("session", cases, os.path.join(wd, "run"))
     per = {}
